@@ -84,6 +84,21 @@ pub fn cases(mix: &str, n: usize, seed: u64) -> Vec<Case> {
             .map(|l| Case { kind: "replay", src: unhex(l.trim()), intended: None, pair_of: None, decl: None })
             .collect();
     }
+    if let Some(path) = mix.strip_prefix("srcgen:") {
+        // well-formed source templates generated from the Lean definitions (the domain of the completeness
+        // theorems): `<hex source> <hex of the intended tree's dump>` per line
+        let text = std::fs::read_to_string(path).unwrap_or_default();
+        return text
+            .lines()
+            .filter(|l| !l.trim().is_empty() && !l.starts_with('#') && !l.starts_with('!'))
+            .filter_map(|l| {
+                let mut it = l.split_whitespace();
+                let src = unhex(it.next()?);
+                let want = String::from_utf8(unhex(it.next()?)).ok()?;
+                Some(Case { kind: "srcgen", src, intended: Some(format!("ok {want}")), pair_of: None, decl: None })
+            })
+            .collect();
+    }
     let want = |k: &str| mix == "all" || mix.split(',').any(|m| m == k);
     if want("examples") {
         for (_, b) in &examples {
@@ -548,7 +563,7 @@ pub fn run(args: &crate::Args) {
                     if &ast != want {
                         writeln!(
                             orc,
-                            "{{\"tags\":[\"C01\",\"C03\",\"C04\",\"C05\",\"C15\"],\"kind\":\"ast-not-intended\",\"case\":{i},\"src_hex\":{},\"src\":{},\"detail\":{}}}",
+                            "{{\"tags\":[\"C01\",\"C03\",\"C04\",\"C05\",\"C13\",\"C15\"],\"kind\":\"ast-not-intended\",\"case\":{i},\"src_hex\":{},\"src\":{},\"detail\":{}}}",
                             jstr(&hex(&c.src)),
                             jbytes(&c.src),
                             jstr(&format!("documented tree {want} but parser gave {ast}"))
